@@ -26,14 +26,15 @@ ASSUMPTIONS = [
 ]
 WITNESSES = ["a copy was attempted", "hostile component would leave the destination"]
 
-HOSTILE_NAMES = ["..", ".", "", "/abs", "a/../../b", "x/y", "../..", "../../..", "../../../.."]
-HOSTILE_COMPS = ["..", ".", "", "/abs", "a/../../b", "x/y"]
+HOSTILE_NAMES = ["..", ".", "", "/abs", "a/../../b", "x/y", "../..", "../../..", "../../../..",
+                 "../dest-old", "../destX/y", "/jail/dest_abs"]          # siblings whose name extends the destination's own
+HOSTILE_COMPS = ["..", ".", "", "/abs", "a/../../b", "x/y", "../../dest.bak"]
 
 
 def BOUNDS(tier):
     return {"versions": "v1 (single and multi file), v2, hybrid", "name": HOSTILE_NAMES, "path components": HOSTILE_COMPS,
             "positions": "torrent name; first component; middle component (each with a harmless file name last)",
-            "sizes": "each in [1, 2P], P = 16 KiB; two payload files (a piece may span both)",
+            "sizes": "each in [1, 2P] (v2/hybrid: the file on the hostile path may also be empty), P = 16 KiB; two payload files",
             "outside": "hostile strings beyond the listed family; symlinks inside the destination"}
 
 
@@ -54,10 +55,10 @@ def jobs(tier):
 def job(E, version, name, comps, single=False, _mutants=None):
     P = 16384
     fs = AFS(cwd="/jail/cwd", order="reversed")
-    for d in ("/jail/dest", "/jail/sibling", "/abs", "/jail/src"):
+    for d in ("/jail/dest", "/jail/sibling", "/abs", "/jail/src", "/jail/dest-old", "/jail/destX", "/jail/dest.bak"):
         fs.mkdirs(d)
     fs.add("/jail/sibling/keep.bin", ("keep", 0), 9)
-    s0 = E.int("s0", 1, 2 * P)
+    s0 = E.int("s0", 0 if (version != 1 and not single) else 1, 2 * P)      # v2/hybrid: also an empty file on the hostile path
     s1 = E.int("s1", 1, 2 * P)
     # payload: file 0 carries the (possibly hostile) path, file 1 is harmless
     p0 = list(comps) if comps else ["f.bin"]
@@ -93,6 +94,9 @@ def job(E, version, name, comps, single=False, _mutants=None):
                 node = tree
                 for k in comps_[:-1]:
                     node = node.setdefault(k, {})
+                if tb(s == 0):
+                    node[comps_[-1]] = {"": {"length": s}}
+                    continue
                 root, layer, _ = refs.v2_layerwise(c, P)
                 node[comps_[-1]] = {"": {"length": s, "pieces root": root}}
                 if tb(s > P):
@@ -134,14 +138,14 @@ def replay(params, model, notes, workdir, seed):
     s0, s1 = int(model["s0"]), int(model["s1"])
     d0, d1 = refconc.content(("f", 0), s0, seed), refconc.content(("f", 1), s1, seed)
     jail = os.path.join(workdir, "jail")
-    for d in ("dest", "sibling", "src", "cwd", "t"):
+    for d in ("dest", "sibling", "src", "cwd", "t", "dest-old", "destX", "dest.bak"):
         os.makedirs(os.path.join(jail, d))
     absdir = os.path.join(workdir, "abs")
     os.makedirs(absdir)
     refconc.write_file(os.path.join(jail, "sibling", "keep.bin"), b"k" * 9)
     p0 = list(comps) if comps else ["f.bin"]
     # absolute hostile components are re-rooted into the scratch area so that the replay cannot touch the real /abs
-    fix = lambda c: (absdir if c == "/abs" else c)  # noqa: E731
+    fix = lambda c: (absdir if c == "/abs" else (os.path.join(jail, "dest_abs") if c == "/jail/dest_abs" else c))  # noqa: E731
     p0 = [fix(c) for c in p0]
     name_r = fix(name)
     fname0 = p0[-1]
